@@ -45,7 +45,14 @@ def sig_unevaluated_ancestor_cond(v, chart, ctx):
     return bool(bad) and all(any(b["src"] in _ancestors(chart, s) for s in tsrc) for b in bad)
 
 
+def sig_conflict_by_source(v, chart, ctx):
+    """C05: a conflict bit between two transitions whose static exit sets are disjoint and whose sources are
+    equal or ancestor-related (decided by spec/Tables.tla, which reports exactly these pairs under this name)"""
+    return v.get("why") == "conflict-by-source-relation"
+
+
 SIGNATURES = {
+    "conflict_by_source": sig_conflict_by_source,
     "unevaluated_ancestor_cond": sig_unevaluated_ancestor_cond,
     "static_conflict": sig_static_conflict,
 }
